@@ -1,1 +1,65 @@
-// no root-level harnesses for wow-adt yet
+//! Kani harnesses for wow-adt at the crate root (copied into the scratch copy as src/verif_kani.rs by /verif/check).
+//! The serializer's private calculators are exercised from builder::serializer::verif_kani (verif_kani_serializer.rs).
+#![allow(unused_imports, dead_code)]
+use crate::chunks::MfboChunk;
+use crate::version::AdtVersion;
+
+pub fn stub_format(_args: core::fmt::Arguments<'_>) -> String {
+    String::new()
+}
+
+include!("verif_blocks.rs");
+
+/// stand-in for the optional chunks of RootAdt in the version-gate block of BuiltAdt::from_root_adt: only presence
+/// matters to the gates, so every payload type except MfboChunk (built by the block itself) is replaced by u8
+pub struct RootGates {
+    pub flight_bounds: Option<MfboChunk>,
+    pub water_data: Option<u8>,
+    pub texture_flags: Option<u8>,
+    pub texture_amplifier: Option<u8>,
+    pub texture_params: Option<u8>,
+    pub blend_mesh_headers: Option<u8>,
+    pub blend_mesh_bounds: Option<u8>,
+    pub blend_mesh_vertices: Option<u8>,
+    pub blend_mesh_indices: Option<u8>,
+}
+
+fn any_version() -> AdtVersion {
+    let k: u8 = kani::any();
+    match k % 6 {
+        0 => AdtVersion::VanillaEarly,
+        1 => AdtVersion::VanillaLate,
+        2 => AdtVersion::TBC,
+        3 => AdtVersion::WotLK,
+        4 => AdtVersion::Cataclysm,
+        _ => AdtVersion::MoP,
+    }
+}
+
+// parsed tile -> builder state: a chunk is kept exactly when the target version has it (MFBO from TBC, MH2O/MTXF from
+// WotLK, MAMP from Cataclysm, MTXP and the blend mesh chunks from MoP), and a TBC+ target always has flight bounds
+// (the only TBC marker, so that the rebuilt tile is detected as the same version).  Loop-free, every version x presence.
+// @harness unit=U14.4 props=C14 kind=complete timeout=300 target="builder/built_adt.rs: BuiltAdt::from_root_adt version-gate block (E11)" oracle=adt_offsets
+#[kani::proof]
+#[kani::unwind(12)]
+#[kani::stub(alloc::fmt::format, stub_format)]
+fn u14_4_version_gates() {
+    let opt = |p: bool| if p { Some(7u8) } else { None };
+    let fb: bool = kani::any();
+    let root = RootGates {
+        flight_bounds: if fb { Some(MfboChunk { max_plane: kani::any(), min_plane: kani::any() }) } else { None },
+        water_data: opt(kani::any()), texture_flags: opt(kani::any()), texture_amplifier: opt(kani::any()), texture_params: opt(kani::any()),
+        blend_mesh_headers: opt(kani::any()), blend_mesh_bounds: opt(kani::any()), blend_mesh_vertices: opt(kani::any()), blend_mesh_indices: opt(kani::any()),
+    };
+    let had = (root.water_data.is_some(), root.texture_flags.is_some(), root.texture_amplifier.is_some(), root.texture_params.is_some(),
+        root.blend_mesh_headers.is_some(), root.blend_mesh_bounds.is_some(), root.blend_mesh_vertices.is_some(), root.blend_mesh_indices.is_some());
+    let version = any_version();
+    let (flight, water, tflags, tamp, tparams, bh, bb, bv, bi) = blk_version_gates(root, version);
+    assert!(flight.is_some() == (version >= AdtVersion::TBC), "flight bounds exactly from TBC on");
+    assert!(water.is_some() == (had.0 && version >= AdtVersion::WotLK), "MH2O kept from WotLK on");
+    assert!(tflags.is_some() == (had.1 && version >= AdtVersion::WotLK), "MTXF kept from WotLK on");
+    assert!(tamp.is_some() == (had.2 && version >= AdtVersion::Cataclysm), "MAMP kept from Cataclysm on");
+    assert!(tparams.is_some() == (had.3 && version >= AdtVersion::MoP), "MTXP kept from MoP on");
+    assert!(bh.is_some() == (had.4 && version >= AdtVersion::MoP) && bb.is_some() == (had.5 && version >= AdtVersion::MoP), "blend mesh headers/bounds kept from MoP on");
+    assert!(bv.is_some() == (had.6 && version >= AdtVersion::MoP) && bi.is_some() == (had.7 && version >= AdtVersion::MoP), "blend mesh vertices/indices kept from MoP on");
+}
